@@ -62,9 +62,15 @@ func (e *establishLinkHandler) HandleValueAdded(inst directive.Instance, val dir
 			WithField("local-peer", vl.GetLocalPeer().String()).
 			Debug("starting peer hold-open tracking")
 		go func() {
+			ref := e.di.AddReference(nil, false)
 			e.mtx.Lock()
-			e.rigidRef = e.di.AddReference(nil, false)
+			if e.valCount > 0 && e.rigidRef == nil {
+				e.rigidRef, ref = ref, nil
+			}
 			e.mtx.Unlock()
+			if ref != nil {
+				ref.Release()
+			}
 		}()
 	}
 }
